@@ -1,14 +1,326 @@
-"""C20 part (b) placeholder until the generator-driven machinery exists (filled in later)."""
+"""C20 part (b) — distinct raw names that collide after derivation, placed in ONE namespace of a real document, through the real
+generator and the imported package.
+
+case = {"part": "b", "ns": "props" | "params" | "schemas" | "enum" | "ops", "names": [raw, raw, ...]}   (raw names pairwise distinct)
+
+Oracles (none may be dropped or merged; every one keeps its own identity):
+  props   : schema Obj has one integer property per raw name.  Obj has len(names) fields and decoding {raw_i: i+1} and encoding
+            it again returns exactly that object (each raw name has its own field and its own wire key).
+  params  : one operation with one optional integer query parameter per raw name.  The method takes len(names) parameters and,
+            called with pairwise distinct values, sends every raw name with a distinct value.
+  schemas : one object schema per raw name with a single required property p<i>, and a Holder whose property h<i> references
+            schema i.  The models package has a dataclass with field set {p<i>} for every i and Holder.h<i> is annotated with it.
+  enum    : string enum E with the raw names as values.  E has exactly these values as members.
+  ops     : one GET operation per raw name (operationId = raw name, path /r<i>) in one tag.  Every path is reachable through
+            its own method of the tag client.
+"""
+
+from __future__ import annotations
+
+import dataclasses
+import itertools
+import typing
+
+from .. import domain, drive, genrun, hyp
 from ..runner import Collector, Violation
 
+NAMESPACES = ["props", "params", "schemas", "enum", "ops"]
 
-def shards(tier, seed):
-    return []
-
-
-def run_shard(shard):
-    return Collector().to_dict()
+# a fixed cluster whose members collide with each other or with the suffixed name handed to another member
+CLUSTER = ["foo-bar", "foo_bar", "fooBar", "FooBar", "foo bar", "foo.bar", "FOO_BAR", "foo_bar_1", "foo_bar_2", "foo-bar-1", "fooBar1", "foo_bar1", "foo__bar", "_foo_bar", "foo_bar_"]
+KEYWORDISH = ["class", "class_", "Class", "CLASS", "_class", "id", "id_", "Id", "type", "type_", "in", "in_", "In", "1a", "_1a", "1A", "a1", "A1", "a-1", "a_1", "self", "self_", "None", "none", "none_"]
 
 
-def evaluate(case):
-    return []
+def _ok_for(ns: str, name: str) -> bool:
+    if name == "":
+        return False
+    if ns == "schemas":  # component keys: ^[a-zA-Z0-9._-]+$
+        return all(c.isascii() and (c.isalnum() or c in "._-") for c in name)
+    return True
+
+
+def valid_case(case: dict) -> bool:
+    try:
+        names = case["names"]
+        return (case.get("part") == "b" and case["ns"] in NAMESPACES and isinstance(names, list) and len(names) >= 2 and len(set(names)) == len(names)
+                and all(isinstance(n, str) and _ok_for(case["ns"], n) for n in names))
+    except Exception:
+        return False
+
+
+def build_spec(ns: str, names: list[str]) -> dict:
+    spec: dict = {"openapi": "3.0.3", "info": {"title": "N", "version": "1"}, "paths": {}, "components": {"schemas": {}}}
+    schemas = spec["components"]["schemas"]
+    ok = {"200": {"description": "ok", "content": {"application/json": {"schema": {"type": "object", "properties": {"r": {"type": "integer"}}}}}}}
+    if ns == "props":
+        schemas["Obj"] = {"type": "object", "properties": {n: {"type": "integer"} for n in names}}
+        spec["paths"]["/obj"] = {"get": {"operationId": "getObj", "tags": ["t"], "responses": {"200": {"description": "ok", "content": {"application/json": {"schema": {"$ref": "#/components/schemas/Obj"}}}}}}}
+    elif ns == "params":
+        spec["paths"]["/r"] = {"get": {"operationId": "getR", "tags": ["t"], "parameters": [{"name": n, "in": "query", "schema": {"type": "integer"}} for n in names], "responses": ok}}
+    elif ns == "schemas":
+        for i, n in enumerate(names):
+            schemas[n] = {"type": "object", "properties": {f"p{i}": {"type": "integer"}}, "required": [f"p{i}"]}
+        schemas["Holder"] = {"type": "object", "properties": {f"h{i}": {"$ref": "#/components/schemas/" + n} for i, n in enumerate(names)}}
+        spec["paths"]["/h"] = {"get": {"operationId": "getH", "tags": ["t"], "responses": {"200": {"description": "ok", "content": {"application/json": {"schema": {"$ref": "#/components/schemas/Holder"}}}}}}}
+    elif ns == "enum":
+        schemas["E"] = {"type": "string", "enum": list(names)}
+        schemas["Obj"] = {"type": "object", "properties": {"e": {"$ref": "#/components/schemas/E"}}}
+        spec["paths"]["/obj"] = {"get": {"operationId": "getObj", "tags": ["t"], "responses": {"200": {"description": "ok", "content": {"application/json": {"schema": {"$ref": "#/components/schemas/Obj"}}}}}}}
+    elif ns == "ops":
+        for i, n in enumerate(names):
+            spec["paths"][f"/r{i}"] = {"get": {"operationId": n, "tags": ["t"], "responses": ok}}
+    return spec
+
+
+def _strip_optional(tp):
+    args = [a for a in typing.get_args(tp) if a is not type(None)]
+    return args[0] if args and (typing.get_origin(tp) is typing.Union or "UnionType" in str(type(tp))) else tp
+
+
+def evaluate(case: dict) -> list[Violation]:
+    return run_case(case)[0]
+
+
+def run_case(case: dict) -> tuple[list[Violation], str]:
+    ns, names = case["ns"], list(case["names"])
+    spec = build_spec(ns, names)
+    res = genrun.generate({"spec": spec, "cfg": {"out": "cli", "core": None, "naming": "operationId", "fmt": "json", "prefix": genrun.unique_prefix()}})
+    viols: list[Violation] = []
+    k = len(names)
+    try:
+        if not res.ok:
+            if res.error_type in ("GenerationError", "ValueError") and "not a valid" not in (res.error or ""):
+                return [], "rejected"
+            # an internal crash is not a visible rejection of the input
+            return [Violation(("collide", ns, "generator_crashes", res.error_type or "?"), f"names={names!r}: {res.error}"[:400])], "crashed"
+        try:
+            sess = drive.Session(res, spec, transport="custom")
+            sess.__enter__()
+        except Exception as e:
+            return [Violation(("collide", ns, "package_unusable", type(e).__name__), f"names={names!r}: {e!r}"[:400])], "unusable"
+        try:
+            models = sess.models_mod
+            if ns == "props":
+                cls = getattr(models, "Obj")
+                fields = [f.name for f in dataclasses.fields(cls)]
+                if len(fields) != k:
+                    viols.append(Violation(("collide", ns, "dropped_or_merged"), f"names={names!r}: Obj fields {fields!r}"))
+                else:
+                    doc = {n: i + 1 for i, n in enumerate(names)}
+                    try:
+                        obj = sess.conv_mod.structure_from_dict(doc, cls)
+                        back = sess.conv_mod.unstructure_to_dict(obj)
+                    except Exception as e:
+                        viols.append(Violation(("collide", ns, "roundtrip_raises", type(e).__name__), f"names={names!r}: {e!r}"[:300]))
+                    else:
+                        if back != doc:
+                            viols.append(Violation(("collide", ns, "wire_keys_merged"), f"names={names!r}: {doc!r} -> {back!r}"))
+            elif ns == "enum":
+                import enum as _enum
+
+                cls = getattr(models, "E", None)
+                if cls is None or not (isinstance(cls, type) and issubclass(cls, _enum.Enum)):
+                    viols.append(Violation(("collide", ns, "enum_missing"), f"names={names!r}"))
+                else:
+                    vals = sorted(m.value for m in cls)
+                    if vals != sorted(names):
+                        viols.append(Violation(("collide", ns, "dropped_or_merged"), f"names={names!r}: members {[(m.name, m.value) for m in cls]!r}"))
+            elif ns == "schemas":
+                by_fields = {}
+                for n in getattr(models, "__all__", []):
+                    c = getattr(models, n, None)
+                    if isinstance(c, type) and dataclasses.is_dataclass(c):
+                        by_fields.setdefault(frozenset(f.name for f in dataclasses.fields(c)), []).append(c)
+                shadowed = [n for n in getattr(models, "__all__", []) if not isinstance(getattr(models, n, None), type)]
+                if shadowed:
+                    viols.append(Violation(("collide", ns, "exported_class_shadowed_by_module"), f"names={names!r}: models.{shadowed[0]} is {getattr(models, shadowed[0], None)!r}"[:300]))
+                missing = [names[i] for i in range(k) if frozenset({f"p{i}"}) not in by_fields]
+                if missing:
+                    viols.append(Violation(("collide", ns, "dropped_or_merged"), f"names={names!r}: no class for {missing!r}; classes {sorted(getattr(models, '__all__', []))!r}"))
+                else:
+                    holder = getattr(models, "Holder", None)
+                    try:
+                        hints = typing.get_type_hints(holder)
+                    except Exception as e:
+                        hints = None
+                        viols.append(Violation(("collide", ns, "holder_hints_unresolvable", type(e).__name__), f"names={names!r}: {e!r}"[:300]))
+                    if hints is not None:
+                        for i in range(k):
+                            tp = _strip_optional(hints.get(f"h{i}"))
+                            want = by_fields[frozenset({f"p{i}"})]
+                            if tp not in want:
+                                viols.append(Violation(("collide", ns, "reference_to_wrong_class"), f"names={names!r}: Holder.h{i} -> {tp!r}, expected the class of {names[i]!r}"))
+                                break
+            elif ns == "params":
+                import inspect
+
+                clients = sess.tag_clients()
+                fns = {mn: fn for c in clients.values() if not isinstance(c, Exception) for mn, fn in sess.methods(c).items()}
+                if len(fns) != 1:
+                    viols.append(Violation(("collide", ns, "method_missing"), f"names={names!r}: methods {sorted(fns)!r}"))
+                else:
+                    fn = next(iter(fns.values()))
+                    ps = [n for n, p in inspect.signature(fn).parameters.items() if p.kind not in (p.VAR_KEYWORD, p.VAR_POSITIONAL)]
+                    if len(ps) != k:
+                        viols.append(Violation(("collide", ns, "dropped_or_merged"), f"names={names!r}: parameters {ps!r}"))
+                    else:
+                        out = sess.call(fn, {p: 100 + i for i, p in enumerate(ps)})
+                        raw = out.raw_kwargs[0] if out.raw_kwargs else None
+                        if raw is None:
+                            viols.append(Violation(("collide", ns, "call_fails", type(out.exc).__name__), f"names={names!r}: {out.exc!r}"[:300]))
+                        else:
+                            sent = dict(raw.get("params") or {})
+                            if sorted(sent) != sorted(names) or len(set(map(str, sent.values()))) != k:
+                                viols.append(Violation(("collide", ns, "wire_names_merged"), f"names={names!r}: sent {sent!r}"))
+            elif ns == "ops":
+                found, problems = sess.discover()
+                used = set()
+                for i in range(k):
+                    where = found.get(("GET", f"/r{i}")) or []
+                    free = [w for w in where if tuple(w) not in used]
+                    if not free:
+                        viols.append(Violation(("collide", ns, "dropped_or_merged"), f"names={names!r}: /r{i} ({names[i]!r}) has no method of its own; found {sorted(found.items())!r}"[:400]))
+                        break
+                    used.add(tuple(free[0]))
+        except Exception as e:
+            viols.append(Violation(("collide", ns, "oracle_access_raises", type(e).__name__), f"names={names!r}: {e!r}"[:300]))
+        finally:
+            sess.__exit__(None, None, None)
+        return viols, "ok"
+    finally:
+        genrun.cleanup(res)
+
+
+def features(case: dict) -> set[str]:
+    """Triggers of open known findings present in the case (excluded from the campaign by construction, see known_findings.json)."""
+    from pyopenapi_gen.core.utils import NameSanitizer
+
+    ns, names = case["ns"], case["names"]
+    out = set()
+    if ns == "schemas":
+        cls = [NameSanitizer.sanitize_class_name(n) for n in names]
+        if len(set(cls)) < len(cls):
+            out.add("schemas_same_class_name")
+        if any(not any(c.isascii() and c.isalpha() for c in n) for n in names):
+            out.add("schema_name_without_letters")
+    if ns == "params":
+        ids = [NameSanitizer.sanitize_method_name(n) for n in names]
+        if len(set(ids)) < len(ids):
+            out.add("params_same_identifier")
+    return out
+
+
+def nontrivial(case: dict) -> bool:
+    """>= 2 raw names derive to the same base identifier (by the generator's own sanitiser for that namespace)."""
+    from pyopenapi_gen.core.utils import NameSanitizer
+
+    fn = {"props": NameSanitizer.sanitize_method_name, "params": NameSanitizer.sanitize_method_name, "ops": NameSanitizer.sanitize_method_name,
+          "schemas": NameSanitizer.sanitize_class_name, "enum": lambda s: s.upper().replace("-", "_").replace(" ", "_")}[case["ns"]]
+    try:
+        d = [fn(n) for n in case["names"]]
+    except Exception:
+        return True
+    return len(set(d)) < len(d)
+
+
+def strategy():
+    from hypothesis import strategies as st
+
+    words = st.sampled_from(["foo", "bar", "a", "b", "x", "id", "type", "class", "in", "status", "v", "1", "2", "data", "list"])
+    styles = ["snake", "kebab", "camel", "pascal", "upper", "space", "dot", "dunder", "lead_", "trail_", "lower_joined", "upper_joined"]
+    sufs = ["", "", "", "_1", "1", "_2", "2", "_", "-1", " 1", "_1_1", "_0"]
+
+    def render(ws, style, suf):
+        if style == "snake":
+            s = "_".join(ws)
+        elif style == "kebab":
+            s = "-".join(ws)
+        elif style == "camel":
+            s = ws[0] + "".join(w.capitalize() for w in ws[1:])
+        elif style == "pascal":
+            s = "".join(w.capitalize() for w in ws)
+        elif style == "upper":
+            s = "_".join(ws).upper()
+        elif style == "space":
+            s = " ".join(ws)
+        elif style == "dot":
+            s = ".".join(ws)
+        elif style == "dunder":
+            s = "__".join(ws)
+        elif style == "lead_":
+            s = "_" + "_".join(ws)
+        elif style == "trail_":
+            s = "_".join(ws) + "_"
+        elif style == "lower_joined":
+            s = "".join(ws)
+        else:
+            s = "".join(ws).upper()
+        return s + suf
+
+    @st.composite
+    def cases(draw):
+        ns = draw(st.sampled_from(NAMESPACES))
+        base = draw(st.lists(words, min_size=1, max_size=3))
+        k = draw(st.integers(2, 5))
+        names: list[str] = []
+        for _ in range(k * 3):
+            if len(names) >= k:
+                break
+            ws = base if draw(st.integers(0, 9)) else draw(st.lists(words, min_size=1, max_size=2))
+            n = render(ws, draw(st.sampled_from(styles)), draw(st.sampled_from(sufs)))
+            if n not in names and _ok_for(ns, n):
+                names.append(n)
+        if len(names) < 2:
+            names = [n for n in ["foo-bar", "foo_bar"]]
+        return {"part": "b", "ns": ns, "names": names}
+
+    return cases()
+
+
+def shards(tier: str, seed: int) -> list[dict]:
+    out = []
+    for ns in NAMESPACES:
+        out.append({"mode": "b_pairs", "ns": ns, "pool": "cluster", "r": 2})
+        out.append({"mode": "b_pairs", "ns": ns, "pool": "keywordish", "r": 2})
+        for part in range(4):
+            out.append({"mode": "b_pairs", "ns": ns, "pool": "cluster", "r": 3, "part": part, "of": 4})
+    n_h, per = (16, 20) if tier == "quick" else (48, 200)
+    out += [{"mode": "b_hyp", "seed": seed * 1000 + 500 + i, "n": per} for i in range(n_h)]
+    return out
+
+
+def run_shard(shard: dict) -> dict:
+    from .. import runner
+
+    col = Collector()
+    excl = domain.excluded("C20")
+    if shard["mode"] == "b_pairs":
+        ns = shard["ns"]
+        pool = [n for n in (CLUSTER if shard["pool"] == "cluster" else KEYWORDISH) if _ok_for(ns, n)]
+        combos = list(itertools.combinations(pool, shard["r"]))
+        if "part" in shard:
+            combos = combos[shard["part"]::shard["of"]]
+        for i, names in enumerate(combos):
+            case = {"part": "b", "ns": ns, "names": list(names)}
+            hit = features(case) & excl
+            if hit:
+                for f in hit:
+                    col.excluded[f] += 1
+                continue
+            viols, outcome = run_case(case)
+            col.record(case, viols, nontrivial(case), ["b_" + ns, f"b_exhaustive_{shard['pool']}_{shard['r']}", "b_outcome_" + outcome])
+            if i % 20 == 0:
+                runner.truncate_generator_logs()
+        return col.to_dict()
+    for case in hyp.draw_cases(strategy(), shard["n"], shard["seed"]):
+        # drop names one at a time (from the end) until no excluded trigger is left
+        while features(case) & excl and len(case["names"]) > 2:
+            case = {**case, "names": case["names"][:-1]}
+        hit = features(case) & excl
+        if hit:
+            for f in hit:
+                col.excluded[f] += 1
+            continue
+        viols, outcome = run_case(case)
+        col.record(case, viols, nontrivial(case), ["b_" + case["ns"], "b_random", "b_outcome_" + outcome, f"b_k{len(case['names'])}"])
+    return col.to_dict()
